@@ -10,4 +10,4 @@ CONSTANTS
 INVARIANT TypeOK
 INVARIANT OffAtExec
 INVARIANT ChunkIndependent
-INVARIANT NoStall
+CHECK_DEADLOCK TRUE
